@@ -156,7 +156,7 @@ def run_shard(shard):
                 u = sec * US + us
                 acc.c["states"] += 1
                 for i, kw in enumerate(amounts):
-                    if (i + sec) % 7 == 0 or len(kw) > 1:
+                    if (i + sec) % 23 == 0:
                         check_arith(acc, pendulum, u, kw, variants=False)
         acc.c["nontrivial"] += shard["s1"] - shard["s0"]
     elif shard["kind"] == "pairs":
